@@ -160,6 +160,8 @@ class VariantInterval(AbstractFeatureInterval):
             start = self.start
             end = self.end
         else:
+            if self.chunk_relative_location.is_empty:
+                raise EmptyLocationException("This variant does not overlap its sequence chunk")
             b = list(self.relative_blocks)[0]
             start = b.start
             end = b.end
